@@ -4,7 +4,7 @@ from props import c09
 
 
 def knobs(r, i):
-    return {"threads": 1 + i % 3, "exits": True, "cycle_density": 1 + i % 3, "cancelable": i % 2 == 0, "ops": 30 + r.below(120)}
+    return {"threads": 1 + i % 3, "exits": True, "cycle_density": 1 + i % 3, "cancelable": i % 2 == 0, "ops": 30 + r.below(120), "stepped": i % 4 == 1}
 
 
 def run(v, tier, seed, replay):
